@@ -9,9 +9,9 @@ import os, re, shutil, subprocess
 from bbox import Sandbox, Rng, hexs, HOST
 
 NAMES = ["a", "b.txt", "sp ace", "quo'te", "the 'final' draft", "''", "a'b'c.txt", "it\\'s", "x\\", "\\'\\'", 'dq"uote', "back\\slash", "dol$lar", "st*ar", "qm?ark", "-dash", "unié中",
-         "notes..old", "v1..v2.diff", "..hidden", "trail..", "new\nline", "tab\tname", "semi;colon", "amp&ersand", "paren(s)", "a.copia", "x.tmp", "[br]", "~tilde", "#hash", "%p", "$(echo x)", "`bt`"]
-DIRS = ["", "d", "d/e", "sp dir", "q'd", "q'd'q", "d.d", "-x"]
-EXCL = ["*.tmp", "d", "d/*", "sp*", "*'*", "a", "?", "x.tmp/", "*\\*", "d/e/", "b.txt"]
+         "notes..old", "v1..v2.diff", "..hidden", "trail..", "new\nline", "tab\tname", "semi;colon", "amp&ersand", "paren(s)", "a.copia", "x.tmp", "[br]", "~tilde", "#hash", "%p", "$(echo x)", "`bt`", ".tmp", ".env", "prod.env"]
+DIRS = ["", "d", "d/e", "sp dir", "q'd", "q'd'q", "d.d", "-x", ".tmp"]
+EXCL = ["*.tmp", "d", "d/*", "sp*", "*'*", "a", "?", "x.tmp/", "*\\*", "d/e/", "b.txt", "*.env", "*.tmp"]
 CONTENT = [b"", b"x", b"hello\n", b"A" * 1000, b"\x00\x01\x02", b"line1\nline2\n", bytes(range(256)) * 20]
 
 
@@ -288,6 +288,85 @@ def remote_failure_section(rng, thorough, res, count):
     return n
 
 
+def deep_tree_section(rng, res, count):
+    """C04 "any nesting": a source tree nested beyond PATH_MAX (built and read back through directory handles). The run may exit 0
+    only if EVERY source file arrived; if it cannot handle the depth it must fail and say so (D22: the walker classified entries
+    with `Path::is_dir` / `is_file`, which answer false on ENAMETOOLONG — whole subtrees silently missing, exit 0, "0 failed")."""
+    n = 0
+    for direction in ("local", "push"):
+        with Sandbox("C04deep") as sb:
+            sroot = sb.path("src"); os.makedirs(sroot)
+            droot = sb.path("dst") if direction == "local" else os.path.join(sb.home, "rdst")
+            os.makedirs(droot, exist_ok=True)
+            cwd0 = os.getcwd()
+            files, rel, depth, comp = {"top.txt": b"top"}, "", 0, "n" * 200
+            try:
+                os.chdir(sroot)
+                open("top.txt", "wb").write(b"top")
+                while len(sroot) + len(rel) < 4096 + 450:
+                    os.mkdir(comp); os.chdir(comp); depth += 1
+                    rel += comp + "/"
+                    body = b"level %d" % depth
+                    open("f.txt", "wb").write(body); files[rel + "f.txt"] = body
+            finally:
+                os.chdir(cwd0)
+            rc, out, err = sb.run(["sync", "-r", sroot, droot if direction == "local" else f"{HOST}:rdst"], timeout=120)
+            out, err = out.decode("utf-8", "replace"), err.decode("utf-8", "replace")
+            got = {}
+            for dpath, dnames, fnames, dfd in os.fwalk(droot):
+                for fn in fnames:
+                    fd = os.open(fn, os.O_RDONLY, dir_fd=dfd)
+                    try:
+                        got[os.path.relpath(os.path.join(dpath, fn), droot) if len(dpath) < 3000 else (dpath[len(droot) + 1:] + "/" + fn)] = os.read(fd, 1 << 20)
+                    finally:
+                        os.close(fd)
+            n += 1
+            count(f"deep-source-tree/{direction}")
+            missing = sorted(k for k, v in files.items() if got.get(k) != v)
+            rep = {"direction": direction, "source_files": len(files), "deepest_path_bytes": len(sroot) + len(rel) + 5, "rc": rc,
+                   "stdout": out[-300:], "stderr": err[-300:], "undelivered": len(missing), "first_undelivered_depth": (missing[0].count("/") if missing else None)}
+            if rc == 0 and missing:
+                res["violations"].append(("exit-0-but-planned-file-not-delivered", f"source tree nested beyond PATH_MAX: copia exited 0 with {len(missing)} of {len(files)} source files undelivered", rep))
+            if rc != 0 and not err.strip():
+                res["violations"].append(("failed-without-report", f"the run failed (rc {rc}) on a deep source tree without reporting an error", rep))
+    return n
+
+
+def unlistable_dir_section(rng, res, count):
+    """C04: a source SUB-directory whose listing fails (EACCES on its `openat`, injected by strace for exactly that path — the
+    checks run as root, for whom no mode bits deny anything). The files below it cannot be known: the run may exit 0 only if
+    every source file is at the destination, and with `--delete` it may not remove destination files that still exist in the
+    source (seed C04-J: the walker skipped the directory with a warning, the delete pass then removed its mirrored files)."""
+    n = 0
+    for direction in ("local", "push"):
+        for flags in ([], ["--delete"]):
+            src = {"a.txt": (b"new a", 1_650_000_000, 0), "private/k1.txt": (b"key one", 1_650_000_001, 0), "private/sub/k2.txt": (b"key two", 1_650_000_002, 0),
+                   "z/last.txt": (b"last", 1_650_000_003, 0)}
+            dst = {"a.txt": (b"old", 1_500_000_000, 0), "private/k1.txt": (b"key one", 1_650_000_001, 0), "private/sub/k2.txt": (b"key two", 1_650_000_002, 0),
+                   "stale.txt": (b"stale", 1_500_000_000, 0)}
+            with Sandbox("C04ul") as sb:
+                sroot = sb.path("src")
+                droot = sb.path("dst") if direction == "local" else os.path.join(sb.home, "rdst")
+                write_tree(sroot, src); write_tree(droot, dst)
+                victim = os.path.join(sroot, "private")
+                prefix = ["strace", "-f", "-qq", "-o", "/dev/null", "-P", victim, "-e", "inject=openat:error=EACCES"]
+                rc, out, err = sb.run(["sync", "-r", sroot, droot if direction == "local" else f"{HOST}:rdst"] + flags, timeout=120, prefix=prefix)
+                out, err = out.decode("utf-8", "replace"), err.decode("utf-8", "replace")
+                d1 = read_tree(droot)
+                n += 1
+                count(f"unlistable-source-dir/{direction}")
+                rep = {"direction": direction, "flags": flags, "unlistable": "src/private (openat → EACCES)", "rc": rc, "stdout": out[-300:], "stderr": err[-300:], "after": sorted(d1)}
+                missing = sorted(k for k, v in src.items() if d1.get(k, (None, None))[:2] != v[:2])
+                removed = sorted(k for k in dst if k in src and k not in d1)
+                if removed:
+                    res["violations"].append(("deleted-a-file-present-in-source", f"{removed} exist in the source (below a directory the run could not list) and were removed from the destination (rc {rc})", rep))
+                if rc == 0 and missing:
+                    res["violations"].append(("exit-0-but-planned-file-not-delivered", f"a source sub-directory could not be listed; copia exited 0 with {missing} not delivered", rep))
+                if rc != 0 and not (err + out).strip():
+                    res["violations"].append(("failed-without-report", f"the run failed (rc {rc}) without reporting an error", rep))
+    return n
+
+
 def location_section(rng, thorough, rundir, model_run, res, count):
     """`FileLocation::parse` observed through the real CLI: `sync -r --dry-run SRC X` either lists X over (stand-in)
     ssh — the stub logs the host and the command, whose `cd $'…'` argument is the remote path — or treats X as a
@@ -377,6 +456,16 @@ def run(pid, tier, seed, rundir, model_run):
                     mt_ = 1_600_000_000 + rng.below(1000)
                     src[pre] = (b"excluded by name\n", mt_, 0); src[pre + ".1"] = (b"extends the name\n", mt_, 0); src[pre + ".d/part"] = (b"below an extending dir\n", mt_, 0)
                     count("exclude/name-extension-siblings")
+            if "*" in e and "/" not in e and e.replace("*", "") not in ("", ".", ".."):
+                # … and the name the pattern matches with its `*` standing for NOTHING (`*.env` excludes a file named `.env`,
+                # `sp*` one named `sp`), as a file and as a directory
+                lit0 = e.replace("*", "")
+                for pre in (lit0, "d/e/" + lit0 + "/below"):
+                    if not any(k == pre or k.startswith(pre + "/") or pre.startswith(k + "/") for k in src) and not any(k == pre or k.startswith(pre + "/") or pre.startswith(k + "/") for k in dst):
+                        src[pre] = (b"the star matches nothing\n", 1_600_000_000 + rng.below(1000), 0)
+                        if wd and rng.coin(1, 2):
+                            dst[pre] = (b"excluded on the destination too\n", 1_500_000_000, 0)
+                        count("exclude/star-matches-empty")
         jobs = rng.pick([1, 2, 4, 8])
         flags += ["--jobs", str(jobs)]
         if rng.coin(1, 4):
@@ -538,6 +627,8 @@ def run(pid, tier, seed, rundir, model_run):
         nl, ldis = location_section(rng, thorough, rundir, model_run, res, count)
         ndis += ldis
         remote_failure_section(rng, thorough, res, count)
+        deep_tree_section(rng, res, count)
+        unlistable_dir_section(rng, res, count)
     if pid == "C15":
         remote_failure_section(rng, thorough, res, count)      # (for its excluded-file-vs-directory part: excludes protect)
     if ndis:
